@@ -7,6 +7,12 @@ claimed = {
  "C08": ("string/template analysis of the Bash converter's SSA (abstract interpretation in a template domain) + Bash lexical scanner over the extracted line templates; per-hole quoting-context obligations",
          "Necessary structural condition per (emitting site, hole): every hole that can carry user string data is double-quoted at its innermost lexical level, outside eval, not echo's first word, with data-independent quoting; literal conversion must escape. Decides the shape of the emitter for all programs; does not decide what bash prints.",
          "Trusts the hole-class table (driver side) and the lexical Bash scanner; go/ssa faithful; run-time behaviour of bash not modelled.", "§3 C08"),
+ "C17": ("template extraction + Bash lexical scanner on WriteFile/ReadFile/Exists: per-hole quoting rule; partial evaluation of the append selector (test polarity against BoolToString(true)) and word order of the write line",
+         "Necessary structural conditions of the line store on the Bash emitter: path/content holes quoted outside eval; append==true selects >>, else >; the selector feeds the write line; echo newline-terminated. File-system histories are not decided.",
+         "Trusts the Bash scanner and template extractor; argument type guards are C06's; no file system is touched.", "§3 C17"),
+ "C18": ("template extraction for AppCall in both converters: argument-hole quoting (data-dependent choices detected in the template domain), pipe separator and list order, capture line shape and $? adjacency on the emission sequence; SSA check of the driver's stage list construction",
+         "Necessary structural conditions: each argument an unconditionally quoted word, stages joined by | in source order, one command substitution into a fresh helper, $? read in the directly following line, result triple order. What the programs receive at run time is not decided.",
+         "Trusts the scanners/extractor; Batch capture helper only judged for argument/pipe clauses.", "§3 C18"),
 }
 na_reason = {
  "C15": "value-level agreement of a TypeShell library executed by a shell with Go's strings package over all arguments; no clause of it is visible in the shape of the Go sources or of std/strings.tsh; static analysis (this task's technique family) cannot address it",
